@@ -170,7 +170,8 @@ func runC02(c *Ctx, r *Run) {
 		r.Analysed(c.FuncName(fn))
 		found, cover, thr, onBody := false, false, false, false
 		var pos token.Pos
-		for _, g := range rejectGuards(fn) {
+		regionOf(fn) // binds the parameters of helpers (validation split into a function of its own) to the call's arguments
+		for _, g := range liftedGuards(fn, 0) {
 			bo, ok := g.cond.(*ssa.BinOp)
 			if !ok || (bo.Op != token.NEQ && bo.Op != token.EQL) {
 				continue
@@ -188,9 +189,9 @@ func runC02(c *Ctx, r *Run) {
 				continue
 			}
 			found, pos = true, g.pos
-			cover = guardCoversAccepts(g)
-			thr, _ = isThreshold(fn, otherSide)
-			onBody = containsField(paramFields(fn, recvOf(degCall)), "body")
+			cover = !g.notCovering && guardCoversAccepts(g)
+			thr, _ = isThreshold(fn, callerVal(otherSide))
+			onBody = containsField(paramFieldsUp(recvOf(degCall)), "body")
 		}
 		key := c.FuncName(fn) + "|degree-check"
 		r.Check("DEG-2", key, c.Pos(pos), found && cover && thr && onBody, "the received commitment polynomial is refused unless its Degree() equals the session threshold",
